@@ -447,4 +447,15 @@ def replay(case):
     return verdicts
 
 
-from vf.known_regions import REGIONS  # noqa: E402
+def _has_constant_tensor_attr(case):
+    m = optcommon.model_from_json(case["model"])
+    return case.get("api") == "optimize" and any(n.op_type == "Constant" and any(a.name == "value" for a in n.attribute) for n in m.graph.node)
+
+
+REGIONS = {
+    # optimize(ModelProto) is functional, but deserialisation shares the TensorProto of Constant 'value' attributes with the argument and a
+    # pass renames the tensor (t.name = output name): the argument is mutated
+    "optimize_renames_constant_tensor_of_argument": _has_constant_tensor_attr,
+    # convert_version(ModelProto) copies only graph (+ opset imports) back: graph/node metadata_props set on the argument are lost
+    "convert_version_proto_drops_metadata": lambda c: c.get("api") == "convert_version",
+}
